@@ -12,8 +12,11 @@ import (
 	"time"
 	"unicode/utf8"
 
+	"unicode"
+
 	"github.com/sboehler/knut/lib/syntax/directives"
 	"github.com/sboehler/knut/lib/syntax/parser"
+	"github.com/sboehler/knut/lib/syntax/scanner"
 )
 
 func init() { runners["C07"] = runC07 }
@@ -669,6 +672,117 @@ func synLong(r *RNG, n int) (string, string) {
 	}
 }
 
+
+// ---------------------------------------------------------------- scanner scripts (the exported scanner.Scanner API)
+
+var scanPreds = []func(rune) bool{
+	unicode.IsDigit,
+	unicode.IsLetter,
+	func(r rune) bool { return unicode.IsLetter(r) || unicode.IsDigit(r) },
+	func(r rune) bool { return r == ' ' || r == '\t' || r == '\r' },
+	func(r rune) bool { return !(r == '\n' || r == scanner.EOF) },
+	func(r rune) bool { return r != '"' },
+	func(r rune) bool { return r == 'a' },
+	func(r rune) bool { return true },
+	func(r rune) bool { return false },
+}
+
+var scanWords = []string{"a", "ab", "open", "@x", "//", "*", "2020", "é", "-", "a b"}
+
+// genScanScript builds a random sequence of scanner calls.
+func genScanScript(r *RNG) []string {
+	n := r.Range(1, 8)
+	ops := make([]string, 0, n)
+	for i := 0; i < n; i++ {
+		switch r.Intn(9) {
+		case 0:
+			ops = append(ops, "A")
+		case 1:
+			ops = append(ops, fmt.Sprintf("W%d", r.Intn(len(scanPreds))))
+		case 2:
+			ops = append(ops, fmt.Sprintf("O%d", r.Intn(len(scanPreds))))
+		case 3:
+			ops = append(ops, fmt.Sprintf("U%d", r.Intn(len(scanPreds))))
+		case 4:
+			ops = append(ops, fmt.Sprintf("P%d", r.Intn(len(scanPreds))))
+		case 5:
+			ops = append(ops, fmt.Sprintf("C%d", Pick(r, []int{' ', '\n', 'a', '-', '"', '2', 0xe9, 0xfffd})))
+		case 6:
+			ops = append(ops, fmt.Sprintf("N%d", r.Intn(5)))
+		case 7:
+			ops = append(ops, "S"+hex.EncodeToString([]byte(Pick(r, scanWords))))
+		default:
+			k := r.Range(1, 3)
+			parts := make([]string, k)
+			for j := range parts {
+				parts[j] = hex.EncodeToString([]byte(Pick(r, scanWords)))
+			}
+			ops = append(ops, "L"+strings.Join(parts, "."))
+		}
+	}
+	return ops
+}
+
+func scanCur(s *scanner.Scanner) string { return strconv.Itoa(int(s.Current())) }
+
+// implScan runs a script on the real scanner: one result per call, stopping at the first error.
+func implScan(text, path string, ops []string) (res string) {
+	defer func() {
+		if r := recover(); r != nil {
+			res += ";panic " + fmt.Sprint(r)
+		}
+	}()
+	s := scanner.New(text, path)
+	errString := func(err error) string {
+		frames, _, _, _ := synFrames(err, text, path)
+		return "err:" + frames + ":" + strconv.Itoa(s.Offset()) + ":" + Hex(err.Error())
+	}
+	if err := s.Advance(); err != nil {
+		return errString(err)
+	}
+	var b strings.Builder
+	fmt.Fprintf(&b, "ok:%d:%s", s.Offset(), scanCur(s))
+	for _, op := range ops {
+		var rg directives.Range
+		var err error
+		arg := op[1:]
+		n, _ := strconv.Atoi(arg)
+		switch op[0] {
+		case 'A':
+			err = s.Advance()
+			rg = directives.Range{Start: s.Offset(), End: s.Offset()}
+		case 'W':
+			rg, err = s.ReadWhile(scanPreds[n])
+		case 'O':
+			rg, err = s.ReadWhile1("x", scanPreds[n])
+		case 'U':
+			rg, err = s.ReadUntil("x", scanPreds[n])
+		case 'P':
+			rg, err = s.ReadCharacterWith("x", scanPreds[n])
+		case 'C':
+			rg, err = s.ReadCharacter(rune(n))
+		case 'N':
+			rg, err = s.ReadN(n)
+		case 'S':
+			w, _ := hex.DecodeString(arg)
+			rg, err = s.ReadString(string(w))
+		case 'L':
+			var ss []string
+			for _, h := range strings.Split(arg, ".") {
+				w, _ := hex.DecodeString(h)
+				ss = append(ss, string(w))
+			}
+			rg, err = s.ReadAlternative(ss)
+		}
+		if err != nil {
+			b.WriteString(";" + errString(err))
+			return b.String()
+		}
+		fmt.Fprintf(&b, ";ok:%d:%d:%d:%s", rg.Start, rg.End, s.Offset(), scanCur(s))
+	}
+	return b.String()
+}
+
 // ---------------------------------------------------------------- classes
 
 var reBackquoted = regexp.MustCompile("`[^`]*`")
@@ -703,6 +817,28 @@ func synClass(res synResult, kinds []string) string {
 		return fmt.Sprintf("err/depth%d/%s", res.ErrDepth, first)
 	}
 	return res.Outcome
+}
+
+
+func scanShape(ops []string) string {
+	var b strings.Builder
+	for _, o := range ops {
+		b.WriteByte(o[0])
+	}
+	if b.Len() > 4 {
+		return b.String()[:4]
+	}
+	return b.String()
+}
+
+func scanOutcome(impl string) string {
+	if i := strings.LastIndex(impl, ";"); i >= 0 {
+		impl = impl[i+1:]
+	}
+	if strings.HasPrefix(impl, "err") {
+		return "err"
+	}
+	return "ok"
 }
 
 func sortStrings(a []string) {
@@ -854,6 +990,34 @@ func runC07(c *Ctx) {
 		}
 		in := map[string]any{"bytes_hex": hex.EncodeToString([]byte(s))}
 		x.bt.Add(func(model string) { c.Compare("utf8", i, "utf8", in, impl, model) }, "utf8", Hex(s))
+	}
+
+	// ---- stream scan: scripts of calls of the exported scanner API (ReadWhile, ReadWhile1, ReadUntil, ReadCharacter,
+	// ReadCharacterWith, ReadString, ReadAlternative, ReadN, Advance) on short texts
+	nS := c.N(6000, 150000)
+	for i := 0; i < nS; i++ {
+		if !c.Want("scan", i) {
+			continue
+		}
+		r := c.Rng("scan", i)
+		var text string
+		if r.Chance(1, 2) {
+			text = synRaw(r)
+		} else {
+			t, _ := synJournal(r)
+			if len(t) > 60 {
+				p := r.Intn(len(t) - 40)
+				t = t[p : p+r.Range(1, 40)]
+			}
+			text = t
+		}
+		ops := genScanScript(r)
+		c.Evals++
+		impl := implScan(text, c07Path, ops)
+		in := map[string]any{"text_hex": hex.EncodeToString([]byte(text)), "script": strings.Join(ops, ",")}
+		c.Monitor("scan", i, "C07_total(scanner)", in, !strings.Contains(impl, ";panic"), impl)
+		c.Class("scan/" + scanShape(ops) + "/" + scanOutcome(impl))
+		x.bt.Add(func(model string) { c.Compare("scan", i, "c07scan", in, impl, model) }, "c07scan", Hex(c07Path), Hex(text), strings.Join(ops, ","))
 	}
 
 	// ---- stream corpus: the repository's own journals, in the thorough tier with every prefix and many one-byte mutations
